@@ -176,6 +176,10 @@ def run(ctx):
     wide = [c for c in wide_chars(r, ctx.pick(40, 1500)) if not c.isspace()]
     for j in range(ctx.pick(250, 5000)):
         sec = canonical_section(r, r.choice([1, 3, 8, 20]), wide=wide)
+        if j % 3 == 1:
+            # unparsable lines (outside every liberal shape) between the canonical ones: they are skipped, the lines after them count
+            for _ in range(r.randrange(1, 4)):
+                sec.insert(r.randrange(0, len(sec) + 1), r.choice(["garbage", "", "96 = N 9 0", "x = y", "12 = Q 1 2", "  [Song]", "= = ="]))
         mode = r.random()
         sx = r.sample(sec, min(len(sec), r.randrange(0, 4))) if mode < 0.4 else []
         ex = r.sample(sec, min(len(sec), r.randrange(0, 4))) if 0.2 < mode < 0.6 else []
